@@ -727,6 +727,7 @@ static Plan cards_generate(uint64_t seed, const Tier &tier)
 	p.cfg["tap"] = g.chance(1, 2);
 	p.cfg["ell"] = (int64_t)g.below(3);
 	p.cfg["chunked"] = g.chance(1, 3);
+	{ Rng gl(derive(seed, 79)); p.cfg["leaver"] = gl.chance(1, 4) ? 1 : 0; } // a key holder joins and leaves before the game (own stream)
 	{ Rng gm(derive(seed, 78)); p.cfg["minsz"] = gm.chance(1, 3) ? (int64_t)gm.below(1 << 24) : 0; } // importer minimum sizes per player (own stream)
 	p.cfg["nmax"] = g.chance(1, 6) ? (int64_t)g.range(9, 20) : (int64_t)g.range(2, 8);
 	int nops = (int)g.range(3, tier.thorough ? 14 : 9);
@@ -848,6 +849,31 @@ static RunResult cards_execute(const Plan &plan)
 			std::istringstream kin(key.str()); W.S.single_party = (int)j;
 			if (!W.P[j].vtmf->KeyGenerationProtocol_UpdateKey(kin)) { W.violate("C03", "honest_key_refused", "UpdateKey refused an honestly published key"); break; }
 		}
+	}
+	if (plan.get("leaver", 0) && W.res.ok())
+	{
+		// a further key holder joins the table and leaves again before the game starts: every player folds its
+		// key in (UpdateKey) and out again (RemoveKey); the game is then played under the key of the k players
+		std::ostringstream key; W.S.single_party = 9; W.outsider->KeyGenerationProtocol_PublishKey(key);
+		for (size_t j = 0; j < W.k && W.res.ok(); j++)
+		{
+			std::istringstream kin(key.str()); W.S.single_party = (int)j;
+			if (!W.P[j].vtmf->KeyGenerationProtocol_UpdateKey(kin)) { W.violate("C03", "honest_key_refused", "UpdateKey refused the honestly published key of a joining key holder"); break; }
+		}
+		for (size_t j = 0; j < W.k && W.res.ok(); j++)
+		{
+			std::istringstream kin(key.str()); W.S.single_party = (int)j;
+			if (!W.P[j].vtmf->KeyGenerationProtocol_RemoveKey(kin)) { W.violate("C08", "remove_refused", "RemoveKey refused the stored key of a leaving key holder"); break; }
+		}
+		W.res.cnt["probe.key_holder_joined_and_left"]++;
+	}
+	if (W.res.ok())
+	{
+		// the common key is the product of the players' shares (C08)
+		Z prod(1);
+		for (size_t i = 0; i < W.k; i++) { mpz_mul(prod, prod, W.P[i].vtmf->h_i); mpz_mod(prod, prod, W.P[0].vtmf->p); }
+		for (size_t i = 0; i < W.k && W.res.ok(); i++)
+			if (mpz_cmp(prod, W.P[i].vtmf->h)) W.violate("C08", "common_key_not_product", "the common key of player " + std::to_string(i) + " is not the product of the players' key shares" + (plan.get("leaver", 0) ? " (after a key holder joined and left)" : ""));
 	}
 	for (size_t i = 0; i < W.k; i++) { W.S.single_party = (int)i; W.P[i].vtmf->KeyGenerationProtocol_Finalize(); }
 	{
@@ -1057,6 +1083,7 @@ static void cards_shrink_more(const Plan &plan, std::vector<Plan> &out)
 	if (plan.get("k", 2) > 2) { Plan q = plan; q.cfg["k"] = plan.get("k", 2) - 1; out.push_back(q); }
 	if (plan.get("chunked", 0)) { Plan q = plan; q.cfg["chunked"] = 0; out.push_back(q); }
 	if (plan.get("minsz", 0)) { Plan q = plan; q.cfg["minsz"] = 0; out.push_back(q); }
+	if (plan.get("leaver", 0)) { Plan q = plan; q.cfg["leaver"] = 0; out.push_back(q); }
 	if (plan.get("kappa", 0) > 1) { Plan q = plan; q.cfg["kappa"] = plan.get("kappa", 0) / 2; out.push_back(q); }
 	if (plan.get("w", 1) > 1) { Plan q = plan; q.cfg["w"] = plan.get("w", 1) - 1; out.push_back(q); }
 	if (plan.get("group", 0) != 0) { Plan q = plan; q.cfg["group"] = 0; out.push_back(q); }
